@@ -142,6 +142,38 @@ func mcastMultihome(w *bufio.Writer) {
 		}
 		p.Close()
 	}
+	// 1b. a join that names no interface uses the system's choice (here: eth0, the default route) — also on a peer that has joined
+	// another group on a named interface before
+	for _, first := range []string{"eth1", "eth0", ""} {
+		trials++
+		p, err := multicast.NewUDPPeer(ioc, "udp", "0.0.0.0:0")
+		if err != nil {
+			fail("multihome-setup", "NewUDPPeer: %v", err)
+			continue
+		}
+		if first != "" {
+			if err := p.JoinOn(multicast.IP("239.2.2.1"), multicast.InterfaceName(first)); err != nil {
+				fail("join-on-failed", "join 239.2.2.1 on %s: %v", first, err)
+				p.Close()
+				continue
+			}
+		}
+		for i, join := range []func() error{
+			func() error { return p.Join(multicast.IP("239.2.2.2")) },
+			func() error { return p.JoinSource(multicast.IP("239.2.2.3"), multicast.SourceIP("10.9.9.7")) },
+		} {
+			group := []string{"239.2.2.2", "239.2.2.3"}[i]
+			if err := join(); err != nil {
+				fail("join-on-failed", "join %s without an interface name (after JoinOn(…, %q)): %v", group, first, err)
+				continue
+			}
+			g := igmpGroups()
+			if !g["eth0"][group] {
+				fail("joined-on-another-interface", "after JoinOn(239.2.2.1, %q) a join of %s that names no interface did not land on the default interface eth0 (memberships: %v)", first, group, g)
+			}
+		}
+		p.Close()
+	}
 	// 2. outbound interface: reported value = kernel value after every call, successful or not
 	{
 		p, err := multicast.NewUDPPeer(ioc, "udp", "0.0.0.0:0")
